@@ -682,9 +682,30 @@ func executePlannedSelection(eCtx *executionContext, sp *selectionPlan, source i
 		if !ok {
 			continue
 		}
+		if path == nil && eCtx.plan != nil && eCtx.plan.isMutation {
+			// Top-level mutation fields run serially: everything this
+			// field deferred (thunks, at any depth) is forced before the
+			// next top-level field starts.
+			resolved = dethunkValueDepthFirst(resolved)
+		}
 		finalResults[fp.responseKey] = resolved
 	}
 	return finalResults
+}
+
+// dethunkValueDepthFirst forces a possibly deferred value and everything
+// deferred below it, depth-first.
+func dethunkValueDepthFirst(v interface{}) interface{} {
+	if f, ok := v.(func() interface{}); ok {
+		v = f()
+	}
+	switch val := v.(type) {
+	case map[string]interface{}:
+		dethunkMapDepthFirst(val)
+	case []interface{}:
+		dethunkListDepthFirst(val)
+	}
+	return v
 }
 
 // resolvePlannedField mirrors resolveField but uses the plan's
